@@ -130,6 +130,9 @@ struct GuardView {
 	int  evIndex = 0;
 };
 
+// what a state saw through its control while being entered / updated (C14)
+struct CtlView { int state, method; bool has = false; Tr last; std::vector<Tr> current; };
+
 struct Violation {
 	std::string oracle;      // e.g. "C01.wellformed"
 	std::string detail;
@@ -165,6 +168,7 @@ struct Harness final : IHarness {
 	bool respectQueue = true;
 	std::vector<Ev> trace;              // events of the current op
 	std::vector<GuardView> guards;      // guard callbacks of the current op
+	std::vector<CtlView> views;         // enter / update callbacks of the current op
 	std::vector<const void*> selfs;     // per trace event (callbacks only) the object address
 	std::vector<int> occ;               // occurrence counters per (state, method, injected)
 	int rndIndex = 0;
@@ -218,6 +222,8 @@ struct Slot {                 // a node in a role
 	int  lastSeq = 0;         // followers: last applied message
 	bool tainted = false;
 	bool stepped = false;     // the last client op made the library process a step
+	std::vector<uint8_t> extSuccess, extFailure;   // marks set from outside since the last step (they wait for the next update)
+	long appendsOk = 0, removals = 0;
 };
 
 struct Message { int seq = 0; int kind = 0; /*0 delta 1 snapshot*/ int at = 0; int to = -1; std::vector<Tr> delta; std::vector<uint8_t> bytes; Obs src; Obs srcBefore; const Op* op = nullptr; int rounds = 0; bool hadSchedule = false; bool reliable = false; };
